@@ -43,7 +43,7 @@ func init() {
 	})
 	Register(&Spec{
 		ID: "C04", Level: "exploration",
-		Rule: "same director as C03 biased to cross-chain transfers: 4 assets (with and without genesis supply, time-limited or not, generated limits/fees/min/max/locks, distinct and shared deputies), amounts placed at limit, limit+1, time-based limit and min/max boundaries, block-time deltas that land before / exactly on / after the limit-period boundary, parameter changes mid-history through the authority path; relations are evaluated after block begin, after every successful tx and after block end; non-trivial = a boundary at which at least one contract was open or an asset counter non-zero, or a successful cross-chain create/claim/refund; distinct = distinct (observation point, event kind, direction, asset configuration class, fit class, window phase, outcome)",
+		Rule: "same director as C03 biased to cross-chain transfers: 4 assets (with and without genesis supply, time-limited or not, generated limits/fees/min/max/locks, distinct and shared deputies), amounts placed at limit, limit+1, time-based limit and min/max boundaries, block-time deltas that land before / exactly on / after the limit-period boundary, parameter changes mid-history through the authority path (incl. the busiest asset switched off and on again, and the asset with most outgoing value in flight taken off the list for eight blocks); relations are evaluated after block begin, after every successful tx and after block end; non-trivial = a boundary at which at least one contract was open or an asset counter non-zero, or a successful cross-chain create/claim/refund; distinct = distinct (observation point, event kind, direction, asset configuration class, fit class, window phase, outcome)",
 		Assume: []string{
 			"asset denoms enter the chain only through the module or through genesis balances that the genesis asset supply records (offset bank supply - current supply is constant, 0 on every denom used)",
 			"limit clauses are asserted only while the asset's parameters are unchanged: the total-limit clause from the first boundary at which it holds after a change, the time-based clause from the first window reset after a change",
